@@ -186,3 +186,81 @@ def view_operand_cases(etl, rng, ctx, ops, ncases, header=('x', 'xy', 'v'), pool
                           '%s treats an operand that is a sort view differently from the table the view stands for' % name,
                           {'op': name, 'tables': repr(tabs[:arity]), 'operand': pos, 'presented as': 'sort(%r, reverse=%r, %r)' % (key, rev, kw),
                            'with the view': got, 'with the materialised view': want})
+
+
+# ---- key values of types the Lean value domain does not have, but which petl orders consistently: members of a str-based
+# Enum (equal to, and ordered like, plain strings), an int subclass, Fractions that equal no int or float.  No model
+# involved: the oracles are the relational definitions, computed with Python's own == .
+import enum as _enum
+
+
+class Colour(str, _enum.Enum):      # module level: rows holding these go through pickle in chunked sorts
+    a = 'a'
+    b = 'b'
+
+
+class MyInt(int):
+    pass
+
+
+def _exotic_pool():
+    from fractions import Fraction as F
+    return [1, 2, 3, MyInt(2), F(1, 3), F(7, 3), F(10, 3), 'a', 'b', Colour.a, Colour.b, None]
+
+
+def exotic_key_cases(etl, rng, ctx, pid, ncases):
+    from collections import Counter
+    from petl.comparison import Comparable
+    pool = _exotic_pool()
+    for ci in range(ncases):
+        sub = rng.sample(pool, rng.choice([3, 4, 5]))
+        A = [['k', 'v']] + [[rng.choice(sub), i] for i in range(rng.choice([2, 3, 5, 6]))]
+        B = [['k', 'w']] + [[rng.choice(sub), 10 + i] for i in range(rng.choice([1, 2, 4]))]
+        case = {'A': repr(A), 'B': repr(B)}
+        ctx.case(('exotic-keys', pid, repr(A), repr(B)))
+        ctx.count('exotic-keys')
+        try:
+            if pid == 'C05':
+                outs = [[tuple(r) for r in etl.sort(A, 'k', buffersize=bs, reverse=rev)] for rev in (False, True) for bs in (None, 1, 2)]
+                for rev, group in ((False, outs[:3]), (True, outs[3:])):
+                    ok = all(o == group[0] for o in group) and Counter(group[0][1:]) == Counter(tuple(r) for r in A[1:]) and \
+                        all(not (Comparable(y[0]) < Comparable(x[0]) if not rev else Comparable(x[0]) < Comparable(y[0]))
+                            for x, y in zip(group[0][1:], group[0][2:]))
+                    if not ok:
+                        ctx.spec_fail('sort|exotic-keys', 'sort with key values of an unmodelled but ordered type: not the same ordered permutation for every buffersize',
+                                      dict(case, reverse=rev, outputs=repr(group)))
+            elif pid == 'C06':
+                got = Counter(tuple(r) for r in list(etl.join(A, B, key='k'))[1:])
+                want = Counter((a[0], a[1], b[1]) for a in A[1:] for b in B[1:] if a[0] == b[0])
+                gl = Counter(tuple(r) for r in list(etl.leftjoin(A, B, key='k'))[1:])
+                wl = want + Counter((a[0], a[1], None) for a in A[1:] if not any(a[0] == b[0] for b in B[1:]))
+                ga = Counter(tuple(r) for r in list(etl.antijoin(A, B, key='k'))[1:])
+                wa = Counter(tuple(a) for a in A[1:] if not any(a[0] == b[0] for b in B[1:]))
+                if got != want or gl != wl or ga != wa:
+                    ctx.spec_fail('join|exotic-keys', 'join / leftjoin / antijoin on key values of an unmodelled but ordered type differ from the nested-loop definition',
+                                  dict(case, join=repr(got), want=repr(want)))
+            elif pid == 'C08':
+                B2 = [['k', 'v']] + [[rng.choice(sub), rng.choice([0, 1, 2])] for _ in range(rng.choice([1, 2, 4]))]
+                A2 = [['k', 'v']] + [[rng.choice(sub), rng.choice([0, 1, 2])] for _ in range(rng.choice([2, 3, 5]))]
+                ca, cb = Counter(tuple(r) for r in A2[1:]), Counter(tuple(r) for r in B2[1:])
+                comp = Counter(tuple(r) for r in list(etl.complement(A2, B2))[1:])
+                inter = Counter(tuple(r) for r in list(etl.intersection(A2, B2))[1:])
+                if comp != ca - cb or inter != ca & cb:
+                    ctx.spec_fail('complement|exotic-keys', 'complement / intersection on cells of an unmodelled but ordered type are not the multiset operations',
+                                  {'A': repr(A2), 'B': repr(B2), 'complement': repr(comp), 'intersection': repr(inter)})
+            elif pid == 'C10':
+                mult = lambda r: sum(1 for x in A[1:] if x[0] == r[0])
+                dup = Counter(tuple(r) for r in list(etl.duplicates(A, 'k'))[1:])
+                uni = Counter(tuple(r) for r in list(etl.unique(A, 'k'))[1:])
+                wd = Counter(tuple(r) for r in A[1:] if mult(r) > 1)
+                wu = Counter(tuple(r) for r in A[1:] if mult(r) == 1)
+                ndist = len(list(etl.distinct(A, 'k'))) - 1
+                keys = []
+                for r in A[1:]:
+                    if not any(r[0] == k for k in keys):
+                        keys.append(r[0])
+                if dup != wd or uni != wu or ndist != len(keys) or etl.isunique(A, 'k') != (not wd):
+                    ctx.spec_fail('duplicates|exotic-keys', 'duplicates / unique / distinct / isunique on key values of an unmodelled but ordered type do not go by key multiplicity',
+                                  dict(case, duplicates=repr(dup), unique=repr(uni)))
+        except Exception as e:   # noqa
+            ctx.spec_fail('%s|exotic-keys|raises' % pid, 'raised %r on key values of an unmodelled but ordered type' % e, case)
